@@ -148,12 +148,16 @@ int main(int argc, char ** argv)
 
       std::vector<uint64_t> last_fail;
       uint64_t idx    = 0;
-      long shrink_evals = 0;  // shrinking is bounded: after 2500 evaluations further candidates "pass"
+      long shrink_evals = 0;  // shrinking is bounded: after 2500 evaluations / 90 s further candidates "pass"
+      std::chrono::steady_clock::time_point shrink_t0{};
       const auto gen  = tape_gen(c.tape_len);
       const auto res  = rc::detail::checkTestable(
         [&] {
           const std::vector<uint64_t> tape = *gen;
-          if (!last_fail.empty() && ++shrink_evals > 2500) return;
+          if (!last_fail.empty()) {
+            if (shrink_evals == 0) shrink_t0 = std::chrono::steady_clock::now();
+            if (++shrink_evals > 2500 || std::chrono::steady_clock::now() - shrink_t0 > std::chrono::seconds(90)) return;
+          }
           bc.put(c.name, tape);
           Ctx out;
           const bool want   = (idx < 3) || (idx % 503) == 0;
